@@ -993,6 +993,75 @@ def workarea():
     return tempfile.mkdtemp(prefix='c20work', dir=tempfile.gettempdir())
 
 
+LATE_SERIAL = [0]
+
+
+def check_late_path(ctx, workdir, variant):
+    """A reference looked up (and correctly reported missing) BEFORE the class declaring its search path is imported
+    resolves afterwards - what was unknown once is not unknown forever.  variant: 'alias' | 'qualified'."""
+    import importlib
+    import sys
+
+    import forml
+
+    ctx.count('evaluations')
+    ctx.count('late_path_checked')
+    LATE_SERIAL[0] += 1
+    pkg = f'c20late{os.getpid()}x{LATE_SERIAL[0]}'
+    root = os.path.join(workdir, pkg)
+    os.makedirs(os.path.join(root, 'plug'))
+    files = {
+        '__init__.py': '',
+        'base.py': 'import abc\nfrom forml import provider\n\nclass Iface(provider.Service):\n    @abc.abstractmethod\n    def need(self):\n        """abstract"""\n',
+        'later.py': f'import abc\nfrom {pkg} import base\n\nclass Mid(base.Iface, path=["{pkg}.plug"]):\n    @abc.abstractmethod\n    def more(self):\n        """abstract"""\n',
+        'plug/__init__.py': '',
+        'plug/late.py': f'from {pkg} import later\n\nclass Late(later.Mid, alias="late"):\n    def need(self):\n        return 1\n    def more(self):\n        return 2\n',
+    }
+    for name, text in files.items():
+        with open(os.path.join(root, name), 'w', encoding='utf-8') as fd:
+            fd.write(text)
+    witness = {'late_path': variant}
+    sys.path.insert(0, workdir)
+    importlib.invalidate_caches()
+    try:
+        base = importlib.import_module(f'{pkg}.base')
+        reference = 'late' if variant == 'alias' else f'{pkg}.plug.late:Late'
+        if variant == 'alias':
+            try:
+                base.Iface[reference]
+                ctx.violation('late-path-known-too-early', f'Iface[{reference!r}] resolved before any search path was declared', witness)
+                return
+            except forml.MissingError:
+                pass
+            importlib.import_module(f'{pkg}.later')  # declares the search path on the banks of Mid and Iface
+        else:
+            sys.path.remove(workdir)
+            try:
+                base.Iface[reference]
+                ctx.violation('late-path-known-too-early', f'Iface[{reference!r}] resolved while its module was not importable', witness)
+                return
+            except forml.MissingError:
+                pass
+            finally:
+                sys.path.insert(0, workdir)
+            importlib.invalidate_caches()
+        try:
+            found = base.Iface[reference]
+            if found.__name__ != 'Late':
+                ctx.violation('late-path-resolved-to-other-class', f'Iface[{reference!r}] -> {found}', witness)
+        except forml.MissingError as err:
+            ctx.violation('missing-although-resolvable-after-earlier-miss', f'Iface[{reference!r}] was looked up (and missing) before it '
+                          f'became loadable; now that it is, the lookup still raises {err!r}', witness)
+        except Exception as err:  # pylint: disable=broad-except
+            ctx.violation('late-path-lookup-raises', f'Iface[{reference!r}] raised {err!r}', witness)
+    finally:
+        if workdir in sys.path:
+            sys.path.remove(workdir)
+        for name in [m for m in sys.modules if m == pkg or m.startswith(pkg + '.')]:
+            del sys.modules[name]
+        shutil.rmtree(root, ignore_errors=True)
+
+
 def run(ctx):
     from vlib import core
 
@@ -1020,6 +1089,7 @@ def run(ctx):
         # ---- part 2: families (directed ones in every shard = under every hash seed; random ones sharded)
         for spec in directed_families():
             check_family(ctx, workdir, spec)
+        check_late_path(ctx, workdir, 'alias')
         rng = ctx.rng('families', ctx.shard)
         mine = []
         for index in range(ctx.pick(288, 9600)):
@@ -1064,7 +1134,9 @@ def replay(ctx, witness):
         return
     workdir = workarea()
     try:
-        if kindname == 'stack':
+        if 'late_path' in witness:
+            check_late_path(ctx, workdir, witness['late_path'])
+        elif kindname == 'stack':
             check_stack(ctx, workdir, witness['layers'], witness['plan'], witness['style'])
         elif kindname == 'family':
             only = [[witness['mode'], witness['order']]] if 'mode' in witness else None
